@@ -146,7 +146,7 @@ class NumericEncoder(Encoder[float]):
     def encode(self, value: Any) -> float:
         try:
             return float(value)
-        except:
+        except Exception:
             return float('nan')
 
     def encodes(self, values: Sequence[Any]) -> Sequence[float]:
@@ -156,7 +156,7 @@ class NumericEncoder(Encoder[float]):
         for value in values:
             try:
                 yield float(value)
-            except:
+            except Exception:
                 yield float('nan')
 
 class OneHotEncoder(Encoder[Tuple[int,...]]):
